@@ -29,6 +29,7 @@ impl Space {
                     "FA" => fam::fa_count(k),
                     "FT" => fam::ft_count(k),
                     "FB" => fam::fb_count(k),
+                    "FU" => fam::fu_count(),
                     _ => panic!("unknown family {name}"),
                 },
             })
@@ -48,6 +49,7 @@ impl Space {
                     "FA" => fam::fa_decode(idx, p.k),
                     "FT" => fam::ft_decode(idx, p.k),
                     "FB" => fam::fb_decode(idx, p.k),
+                    "FU" => fam::fu_decode(idx),
                     _ => unreachable!(),
                 };
                 return (p.name, g);
